@@ -2,7 +2,163 @@
 
 package main
 
-type e2eCase struct{}
-type e2eOut struct{}
+import (
+	"context"
+	"fmt"
+	"strconv"
 
-func runE2E(c *e2eCase) *e2eOut { return &e2eOut{} }
+	"github.com/synnaxlabs/cesium"
+	xcontrol "github.com/synnaxlabs/x/control"
+	xfs "github.com/synnaxlabs/x/io/fs"
+	"github.com/synnaxlabs/x/telem"
+)
+
+// End-to-end variant: several cesium writers with different authorities on ONE index
+// channel (exclusive or shared). Every write carries fresh, globally increasing time
+// stamps; writers use Sync + auto-commit, so the observable is the authorized flag of
+// each write and, at the end, what Read returns.
+
+type e2eOp struct {
+	Op   string `json:"op"` // open | write | set | close
+	W    int    `json:"w"`
+	Subj int    `json:"subj"`
+	Auth int    `json:"auth"`
+	N    int    `json:"n"`
+	Eou  bool   `json:"eou"`
+}
+
+type e2eCase struct {
+	Shared bool    `json:"shared"`
+	Ops    []e2eOp `json:"ops"`
+}
+
+type e2eStep struct {
+	St   string  `json:"st"`   // ok | unauth | skip | err
+	Auth int     `json:"auth"` // write: 1 authorized, 0 not; else 2
+	TS   []int64 `json:"ts"`   // write: the stamps carried by the frame (seconds)
+	Err  string  `json:"err,omitempty"`
+}
+
+type e2eOut struct {
+	Steps []e2eStep `json:"steps"`
+	Read  []int64   `json:"read"`
+	Err   string    `json:"err,omitempty"`
+}
+
+func runE2E(c *e2eCase) *e2eOut {
+	out := &e2eOut{Read: []int64{}}
+	ctx := context.Background()
+	db, err := cesium.Open(ctx, "", cesium.WithFS(xfs.NewMem()))
+	if err != nil {
+		panic(err)
+	}
+	defer func() { _ = db.Close() }()
+	const key cesium.ChannelKey = 7
+	ch := cesium.Channel{Key: key, Name: "idx", IsIndex: true, DataType: telem.TimeStampT}
+	if c.Shared {
+		ch.Concurrency = xcontrol.ConcurrencyShared
+	}
+	if err := db.CreateChannel(ctx, ch); err != nil {
+		panic(err)
+	}
+	writers := map[int]*cesium.Writer{}
+	used := map[int]bool{}
+	next := int64(10) // next unused stamp, in seconds
+	for _, o := range c.Ops {
+		st := e2eStep{St: "ok", Auth: 2, TS: []int64{}}
+		switch o.Op {
+		case "open":
+			if used[o.W] {
+				st.St = "skip"
+				break
+			}
+			used[o.W] = true
+			eou := o.Eou
+			w, err := db.OpenWriter(ctx, cesium.WriterConfig{
+				Channels:                 []cesium.ChannelKey{key},
+				Start:                    telem.TimeStamp(next) * telem.SecondTS,
+				Authorities:              []xcontrol.Authority{xcontrol.Authority(o.Auth)},
+				ControlSubject:           xcontrol.Subject{Key: "s" + strconv.Itoa(o.Subj)},
+				Sync:                     new(true),
+				EnableAutoCommit:         new(true),
+				AutoIndexPersistInterval: cesium.AlwaysIndexPersistOnAutoCommit,
+				ErrOnUnauthorized:        &eou,
+			})
+			if err != nil {
+				st.St = errClass(err)
+				st.Err = err.Error()
+				break
+			}
+			writers[o.W] = w
+		case "write":
+			w, ok := writers[o.W]
+			if !ok {
+				st.St = "skip"
+				break
+			}
+			n := o.N
+			if n < 1 {
+				n = 1
+			}
+			stamps := make([]telem.TimeStamp, n)
+			for i := range stamps {
+				stamps[i] = telem.TimeStamp(next) * telem.SecondTS
+				st.TS = append(st.TS, next)
+				next++
+			}
+			auth, err := w.Write(telem.MultiFrame(
+				[]cesium.ChannelKey{key}, []telem.Series{telem.NewSeriesV(stamps...)}))
+			if err != nil {
+				st.St = "err"
+				st.Err = err.Error()
+				break
+			}
+			st.Auth = 0
+			if auth {
+				st.Auth = 1
+			}
+		case "set":
+			w, ok := writers[o.W]
+			if !ok {
+				st.St = "skip"
+				break
+			}
+			if err := w.SetAuthority(cesium.WriterConfig{
+				Authorities: []xcontrol.Authority{xcontrol.Authority(o.Auth)},
+			}); err != nil {
+				st.St = "err"
+				st.Err = err.Error()
+			}
+		case "close":
+			w, ok := writers[o.W]
+			if !ok {
+				st.St = "skip"
+				break
+			}
+			delete(writers, o.W)
+			if err := w.Close(); err != nil {
+				st.St = "err"
+				st.Err = err.Error()
+			}
+		default:
+			st.St = "skip"
+		}
+		out.Steps = append(out.Steps, st)
+	}
+	for id, w := range writers {
+		if err := w.Close(); err != nil {
+			out.Err += fmt.Sprintf("close %d: %v; ", id, err)
+		}
+	}
+	fr, err := db.Read(ctx, telem.TimeRangeMax, key)
+	if err != nil {
+		out.Err += "read: " + err.Error()
+		return out
+	}
+	for _, s := range fr.SeriesAt(key) {
+		for _, v := range telem.Unmarshal[telem.TimeStamp](s) {
+			out.Read = append(out.Read, int64(v/telem.SecondTS))
+		}
+	}
+	return out
+}
